@@ -93,6 +93,9 @@ class ED_Solver(ExactSolver):
         self.ar = prob.ar
         self.C0 = prob.C0
         self.P0 = prob.P0
+        # the wave travels with the sound speed of THIS problem's gamma, Cv, Tref
+        # (the class attribute is evaluated once from the defaults)
+        self.sound = prob.sound
         self.__prob = prob
 
     @print_when_verbose
@@ -212,6 +215,9 @@ class nED_Solver(ExactSolver):
         self.C0 = prob.C0
         self.P0 = prob.P0
         self.problem = prob.problem
+        # the wave travels with the sound speed of THIS problem's gamma, Cv, Tref
+        # (the class attribute is evaluated once from the defaults)
+        self.sound = prob.sound
         self.__prob = prob
 
     @print_when_verbose
@@ -334,6 +340,9 @@ class Sn_Solver(ExactSolver):
         self.VEF = np.interp(self.x, prob.Sn_profile.x_RT, prob.Sn_profile.f)
         self.C0 = prob.C0
         self.P0 = prob.P0
+        # the wave travels with the sound speed of THIS problem's gamma, Cv, Tref
+        # (the class attribute is evaluated once from the defaults)
+        self.sound = prob.sound
         self.__prob = prob
 
     @print_when_verbose
@@ -435,6 +444,9 @@ class ie_Solver(ExactSolver):
         self.SIE = self.Pressure / self.Density / (self.gamma - 1.)
         self.Sound_Speed = self.Speed / self.Mach
         self.Fe = prob.IE_profile.Fe
+        # the wave travels with the sound speed of THIS problem's gamma, Cv, Tref
+        # (the class attribute is evaluated once from the defaults)
+        self.sound = prob.sound
         self.__prob = prob
 
     @print_when_verbose
